@@ -148,6 +148,38 @@ def gen_one(rng, maxP, allow_allzero, force_allzero=False, mb=0):
     return fmt_case(P, mode, d, buf, seed, NI, entries, sizes, v, dt, mb)
 
 
+def default_buffer():
+    """the default buffer size as re-read from the source into coq/Params_gen.v"""
+    try:
+        m = re.search(r"c06_param_default_buffer\s*:\s*N\s*:=\s*(\d+)", open(os.path.join(V.COQ, "Params_gen.v")).read())
+        return int(m.group(1))
+    except Exception:
+        return DEFAULT_BUF
+
+
+def special_member_cases(rng):
+    """The clause of C06_special_members that a copy / assigned / self-assigned communicator keeps the configured buffer
+    size, exercised where it matters: a buffer LARGER than the default with an index that has more items than the
+    default buffer holds (a copy that fell back to the default could never send it), and a buffer smaller than the
+    default with an index exactly filling it.  One or two ranks only (cheap)."""
+    D = default_buffer()
+    big = D + 7232
+    cs = []
+    def seed(): return rng.randrange(1, 1 << 30)
+    two = [(0, 1, [0, 1, 2, 3], [0]), (1, 0, [0], [3, 2, 1, 0])]          # 0 -> 1 four indices, 1 -> 0 one index
+    for v in (4, 5):
+        # variable sizes 3, big, 0, 7 with buffer big+10000; forward and backward
+        cs.append(fmt_case(2, 1, 0, big + 10000, seed(), 4, two, [[3, big, 0, 7], [2, 0, 0, 0]], v, 0, 0))
+    cs.append(fmt_case(2, 1, 1, big + 10000, seed(), 4, [(0, 1, [0], [0, 1, 2, 3]), (1, 0, [3, 2, 1, 0], [0])], [[3, big, 0, 7], [2, 0, 0, 0]], 4, 1, 0))
+    # fixed size D+1 in a buffer of exactly D+1 items (copy), one rank with a self interface (assignment + self-assignment)
+    cs.append(fmt_case(2, 0, 0, D + 1, seed(), 2, [(0, 1, [1, 0], []), (1, 0, [], [0, 1])], [[D + 1, D + 1], [D + 1, D + 1]], 4, 0, 0))
+    cs.append(fmt_case(1, 1, 0, big, seed(), 3, [(0, 0, [0, 1, 2], [2, 0, 1])], [[1, big, 0]], 5, 2, 0))
+    # smaller than the default, an index exactly filling the buffer
+    for v in (4, 5):
+        cs.append(fmt_case(2, 1, 0, 7, seed(), 3, [(0, 1, [0, 1, 2], [1]), (1, 0, [1], [2, 1, 0])], [[7, 7, 3], [0, 7, 0]], v, 3 if v == 4 else 0, 0))
+    return cs
+
+
 def corpus_cases():
     cp = os.path.join(V.VERIF, "corpus", "C06", "cases.txt")
     if not os.path.exists(cp):
@@ -198,7 +230,7 @@ def oracle(case_line, impl_line, spec):
     """None if the property accepts what the impl did, else the reason."""
     if is_hang(impl_line):
         return "forward()/backward() did not return on every process"
-    if impl_line.startswith("NOT-RUN"):
+    if impl_line.startswith("NOT-RUN") or impl_line.startswith("SKIPPED-SPECIAL-MEMBERS"):
         return None          # counted in the evidence as not validated
     if impl_line.startswith("CRASH") or impl_line.startswith("BADCASE"):
         return "no observation: " + impl_line[:120]
@@ -264,11 +296,26 @@ def build_model_retry(ctx):
 
 
 def build(ctx):
+    """(model, (impl, impl_mb)).  If the driver does not compile but compiles without the special-member paths
+    (-DC06_NO_SPECIAL_MEMBERS: copy constructor from a const source, copy/self assignment), that is reported as its own
+    violation and everything else still runs (the cases on those paths print SKIPPED-SPECIAL-MEMBERS)."""
     model = build_model_retry(ctx)
-    impl, impl_mb = V.cxx_many(ctx, [
-        dict(srcs=HARNESS, out=ctx.path("impl"), mpi=True, opt="-O1"),
-        dict(srcs=HARNESS, out=ctx.path("impl_mb"), mpi=True, opt="-O1", flags=["-DDUNE_PARALLEL_MAX_COMMUNICATION_BUFFER_SIZE=%d" % MACRO_BUF]),
-    ])
+    mb = "-DDUNE_PARALLEL_MAX_COMMUNICATION_BUFFER_SIZE=%d" % MACRO_BUF
+    try:
+        impl, impl_mb = V.cxx_many(ctx, [
+            dict(srcs=HARNESS, out=ctx.path("impl"), mpi=True, opt="-O1"),
+            dict(srcs=HARNESS, out=ctx.path("impl_mb"), mpi=True, opt="-O1", flags=[mb]),
+        ])
+    except V.BuildError as e:
+        impl, impl_mb = V.cxx_many(ctx, [
+            dict(srcs=HARNESS, out=ctx.path("impl"), mpi=True, opt="-O1", flags=["-DC06_NO_SPECIAL_MEMBERS"]),
+            dict(srcs=HARNESS, out=ctx.path("impl_mb"), mpi=True, opt="-O1", flags=[mb, "-DC06_NO_SPECIAL_MEMBERS"]),
+        ])          # a BuildError here propagates: the driver is broken beyond the special members
+        ctx.violation("compile:special-members",
+                      {"broken": "corr:C06/special-members: copy construction from a const VariableSizeCommunicator / copy assignment / "
+                                 "self-assignment no longer compile (the rest of the driver does and was run)",
+                       "log": str(e)[-3000:]}, found_input=False)
+        ctx.notes.append("driver built with -DC06_NO_SPECIAL_MEMBERS: API paths v=4, v=5 not run")
     return model, (impl, impl_mb)
 
 
@@ -332,11 +379,20 @@ def run(ctx):
     pcases = ["2 1 0 2 0 1 2 0 1 1 0 0 1 0 0 1 0 3 0 0 0 0", "2 0 0 2 0 1 2 0 1 1 0 0 1 0 0 1 0 3 3 0 0 0"]
     precond_set = set(pcases)
     pio, _ = run_impl(ctx, impl, NP, pcases, "implpre", case_timeout=5)
-    cases = stage1_cases + cases + mcases + pcases
-    io = stage1_impl + io + mio + pio
+    # special members with a buffer larger than the default and an index larger than the default buffer (two ranks)
+    scases = special_member_cases(ctx.rng("special"))
+    sio, _ = run_impl(ctx, impl, 2, scases, "implsm", case_timeout=20)
+    for i, l in enumerate(sio):
+        if is_hang(l) and cov["hang_cases_confirmed"] < 3:
+            l2 = confirm_hang(ctx, impl, 2, scases[i], "hcs")
+            if is_hang(l2): cov["hang_cases_confirmed"] += 1
+            sio[i] = l2
+    cases = stage1_cases + cases + mcases + pcases + scases
+    io = stage1_impl + io + mio + pio + sio
     mo = V.run_cases(ctx, [model], cases, tag="model", timeout=900)
 
     nviol = ndis = ndrift = nprecond = 0
+    per_sig = {}
     match_cur = match_new = discriminating = 0
     feats, dist = {}, {"mode": {}, "dir": {}, "P": {}, "buf": {}, "api_path": {}, "data_type": {}, "macro_buffer": {}}
     rounds_hist = {}
@@ -379,15 +435,18 @@ def run(ctx):
         reason = oracle(c, a, spec)
         if reason is not None:
             nviol += 1
-            if nviol <= 40:
-                ctx.violation(sig_of(pc, a), {"case": c, "parsed": pc, "impl": a, "model_tree_code": cur, "model_fixed_code": new, "spec": spec,
+            sg = sig_of(pc, a)
+            per_sig[sg] = per_sig.get(sg, 0) + 1
+            if per_sig[sg] <= 3:
+                sh = lambda x: x if len(x) < 4000 else x[:2000] + " ...[%d chars]... " % len(x) + x[-500:]
+                ctx.violation(sig_of(pc, a), {"case": c, "parsed": pc, "impl": sh(a), "model_tree_code": sh(cur), "model_fixed_code": sh(new), "spec": sh(spec),
                                               "oracle": reason, "replay_cmd": "bin/check C06 --replay <this file>"})
         # correspondence: the tree must behave as one of the two model variants
         def same(x):
-            if a.startswith("NOT-RUN"): return True
+            if a.startswith("NOT-RUN") or a.startswith("SKIPPED-SPECIAL-MEMBERS"): return True
             if is_hang(a): return is_hang(x)
             return a.split(" ||")[0] == x.split(" ||")[0] and not is_hang(x)
-        if cur.split(" ||")[0] != new.split(" ||")[0] or is_hang(cur) != is_hang(new):
+        if (cur.split(" ||")[0] != new.split(" ||")[0] or is_hang(cur) != is_hang(new)) and not (a.startswith("NOT-RUN") or a.startswith("SKIPPED")):
             discriminating += 1
             match_cur += same(cur); match_new += same(new)
         if not (same(cur) or same(new)):
@@ -418,7 +477,8 @@ def run(ctx):
         "impl_model_disagreements": ndis, "oracle_rejections": nviol, "precondition_violating_cases": nprecond, "deep_stream_drift": ndrift,
         "tree_matches_model_variant": variant, "discriminating_cases": discriminating,
         "pmpi_shim": {"perturbed_sweeps": shim[0], "calls_reporting_out_of_index_order": shim[1], "delays": shim[2]},
-        "traces_validated_against_impl": sum(1 for a in io if not (a.startswith("NOT-RUN") or a.startswith("CRASH"))),
+        "traces_validated_against_impl": sum(1 for a in io if not (a.startswith("NOT-RUN") or a.startswith("CRASH") or a.startswith("SKIPPED"))),
+        "special_member_big_buffer_cases": len(scases), "default_buffer_from_source": default_buffer(),
         "exhaustive": False,
     })
     ctx.assumptions += ["MPI point-to-point semantics as modelled (per-pair FIFO matching on the private communicator, Issend completes after the matching receive is posted)",
